@@ -42,7 +42,10 @@ ASSUMPTIONS = ['identical glob order on all nodes']
 REQUIRED_COUNTERS = ['configurations_checked', 'processes_recorded',
                      'run_parallel_calls', 'cluster_sized_allocations',
                      'input_name_scheme_bias-frac',
-                     'input_name_scheme_dotted']
+                     'input_name_scheme_dotted',
+                     'input_name_scheme_mixed-leading',
+                     'configurations_with_delete_existing',
+                     'result_files_looked_for_after_all_nodes']
 EXHAUSTIVE = True
 EXHAUSTIVE_SCOPE = 'coverage.box'
 
@@ -57,11 +60,19 @@ BOX = {
 
 class FakeProcess:
     def __init__(self, rec, target=None, args=(), kwargs=None):
+        self.args = args
         rec.append({'target': getattr(target, '__name__', str(target)),
                     'args': args, 'kwargs': kwargs or {}})
 
     def start(self):
-        pass
+        # the task writes its result file (what run_file does at its first
+        # save); whether it is still there is judged after ALL nodes ran
+        try:
+            with open(self.args[1], 'w') as f:
+                f.write(json.dumps({'input': self.args[0],
+                                    'n_runs': self.args[2]}))
+        except (OSError, IndexError, TypeError):
+            pass
 
     def join(self):
         pass
@@ -78,7 +89,7 @@ class FakeMP:
         return FakeProcess(self.launched, target, args, kwargs)
 
 
-NAME_SCHEMES = ['plain', 'bias-int', 'bias-frac', 'dotted']
+NAME_SCHEMES = ['plain', 'bias-int', 'bias-frac', 'dotted', 'mixed-leading']
 
 
 def input_name(scheme, i):
@@ -89,6 +100,9 @@ def input_name(scheme, i):
         return f'experiment_bias_{[1, 3, 10, 30, 100, 300, 1000, "inf"][i]}.json'
     if scheme == 'bias-frac':       # non-integer bias ratios
         return f'experiment_bias_{[0.25, 0.5, 0.75, 1.5, 2.5, 3.5, 30.5, 0.125][i]}.json'
+    if scheme == 'mixed-leading':   # some names start with a digit
+        return ['3d_toric.json', 'toric.json', '2d.json', 'xzzx_3.json',
+                '10_rates.json', 'b.json', '7.json', 'a1.json'][i]
     return f'toric.L{4 + 2 * i}.json'
 
 
@@ -96,16 +110,21 @@ def tasks_per_input_max(n_tasks, n_inputs):
     return n_tasks // n_inputs + n_tasks % n_inputs
 
 
-def check_config(out, cli, fake, data_dir, n_inputs, N, C, trials):
-    desc = {'inputs': n_inputs, 'nodes': N, 'cores': C, 'trials': trials}
+def check_config(out, cli, fake, data_dir, n_inputs, N, C, trials,
+                 delete_existing=False):
+    desc = {'inputs': n_inputs, 'nodes': N, 'cores': C, 'trials': trials,
+            'delete_existing': delete_existing}
     launches = []
+    if delete_existing:
+        out.count('configurations_with_delete_existing')
     for job in range(1, N + 1):
         fake.launched = []
         try:
             with contextlib.redirect_stdout(io.StringIO()):
                 cli.run_parallel.callback(
                     data_dir=data_dir, trials=trials, n_nodes=N,
-                    job_idx=job, n_cores=C, delete_existing=False)
+                    job_idx=job, n_cores=C,
+                    delete_existing=delete_existing)
         except Exception as e:
             where = panqec_frame(e)
             if where is None:
@@ -134,6 +153,14 @@ def check_config(out, cli, fake, data_dir, n_inputs, N, C, trials):
     if len(set(results)) != len(results):
         out.violation('run_parallel/result-file-shared',
                       f'two tasks write the same result file ({desc})', desc)
+    else:
+        gone = [r for r in results if not os.path.exists(r)]
+        out.count('result_files_looked_for_after_all_nodes', len(results))
+        if gone:
+            out.violation('run_parallel/result-file-gone-after-all-nodes',
+                          f'{len(gone)} of {len(results)} tasks have no '
+                          f'result file left once every node has run '
+                          f'({desc})', desc)
     expected_inputs = sorted(glob.glob(os.path.join(data_dir, 'inputs',
                                                     '*.json')))
     for inp in expected_inputs:
@@ -186,8 +213,9 @@ def run_block(task, out):
                     [t for t in task['extra'] if t >= tmin]
                 if task.get('wide'):
                     out.count('cluster_sized_allocations')
-                for trials in ts:
-                    check_config(out, cli, fake, d, n_inputs, N, C, trials)
+                for ti, trials in enumerate(ts):
+                    check_config(out, cli, fake, d, n_inputs, N, C, trials,
+                                 delete_existing=(ti + N + C) % 3 == 0)
     finally:
         cli.multiprocessing = real_mp
         shutil.rmtree(d, ignore_errors=True)
@@ -255,7 +283,7 @@ def plan(tier, seed):
             tasks.append({'kind': 'block', 'inputs': n_inputs, 'nodes': [N],
                           'cores': list(box['cores']), 'tmax': box['tmax'],
                           'extra': box['extra'],
-                          'names': NAME_SCHEMES[(n_inputs + N) % 4],
+                          'names': NAME_SCHEMES[(n_inputs + N) % 5],
                           'cost': len(box['cores']) * box['tmax'] * N})
     # cluster-sized allocations (beyond the exhaustive box; enumerated list)
     wide_nodes = [4, 5, 7, 8, 12, 16] if tier == 'quick' else \
@@ -267,7 +295,7 @@ def plan(tier, seed):
             tasks.append({'kind': 'block', 'inputs': n_inputs, 'nodes': [N],
                           'cores': wide_cores, 'tmax': 0,
                           'extra': [1000, 1003], 'wide': True,
-                          'names': NAME_SCHEMES[(n_inputs + N) % 4],
+                          'names': NAME_SCHEMES[(n_inputs + N) % 5],
                           'cost': len(wide_cores) * 3 * N * 8})
     if tier == 'thorough':
         for trials in (7, 10, 13):
